@@ -316,7 +316,9 @@ def check_case(case) -> Obs:
         wl = (robotools.FluentWorklist if fluent else evo_class(len(repr(case.get("args")))))(max_volume=M, diti_mode=case["diti"])
         obs.cls("device:" + ("fluent" if fluent else "evo"))
     else:
-        wl = robotools.BaseWorklist(max_volume=M, diti_mode=case["diti"])
+        # the record-level methods live in BaseWorklist; every class that inherits them has to behave the same
+        classes_ = [robotools.BaseWorklist, robotools.EvoWorklist, robotools.Worklist, robotools.FluentWorklist]
+        wl = classes_[(len(repr(case.get("args"))) + len(case["prefill"]) + int(case["diti"])) % 4](max_volume=M, diti_mode=case["diti"])
     wl.extend(case["prefill"])
     before = list(wl)
     args = {k: _val(v) for k, v in case.get("args", {}).items()}
